@@ -127,3 +127,13 @@ Record wf (s : store) : Prop := {
   wf_acyc : exists depth : id -> nat,
             forall c cn p, aget c (nodes s) = Some cn -> parent cn = Some p -> depth p < depth c
 }.
+
+(* wfb after every operation of a sequence (a rejected operation leaves the store unchanged) *)
+Fixpoint run_wfb (s : store) (ops : list op) : list bool :=
+  match ops with
+  | [] => []
+  | o :: t => match step s o with
+              | Some s' => wfb s' :: run_wfb s' t
+              | None => wfb s :: run_wfb s t
+              end
+  end.
